@@ -5,10 +5,297 @@ package filter
 // Contracts for govc (contract-based deductive verification, see /verif/DESIGN.md).
 // Comments only; compiled only with the build tag "verif".
 
-// What the tables rely on: policy evaluation works on a copy (it writes no
-// object that existed before the call), returns a path object and never changes
-// the eligibility mark of a path.
+// Property C14: policy evaluation agrees with the documented semantics. The
+// matchers are stated over the prefix relations of package net (whose bit-level
+// meaning is property C15): exact = same prefix; orlonger = same or more
+// specific; longer = more specific; range = same or more specific with a length
+// within [min, max].
+//@ spec
+//@ func spec_within(pattern *net.Prefix, prefix *net.Prefix) bool {
+//@ 	return pattern.Equal(prefix) || pattern.Contains(prefix)
+//@ }
+//@ func spec_okMatcher(m PrefixMatcher) bool {
+//@ 	if r, ok := m.(*InRangeMatcher); ok {
+//@ 		return r != nil
+//@ 	}
+//@ 	return m != nil
+//@ }
+//@ // a route filter that can be applied to prefix p (a pattern of p's address family)
+//@ func spec_okRF(f *RouteFilter, p *net.Prefix) bool {
+//@ 	return f != nil && net.Spec_OkPfx(f.pattern) && net.Spec_SameFamily(f.pattern, p) && spec_okMatcher(f.matcher)
+//@ }
+//@ func spec_okPL(l *PrefixList) bool {
+//@ 	return l != nil && verif_forall(0, len(l.allowed), func(k int) bool { return l.allowed[k] != nil })
+//@ }
+//@ func spec_okTC(t *TermCondition, p *net.Prefix) bool {
+//@ 	return t != nil && net.Spec_OkPfx(p) &&
+//@ 		verif_forall(0, len(t.routeFilters), func(k int) bool { return spec_okRF(t.routeFilters[k], p) }) &&
+//@ 		verif_forall(0, len(t.prefixLists), func(k int) bool { return spec_okPL(t.prefixLists[k]) }) &&
+//@ 		verif_forall(0, len(t.communityFilters), func(k int) bool { return t.communityFilters[k] != nil }) &&
+//@ 		verif_forall(0, len(t.largeCommunityFilters), func(k int) bool { return t.largeCommunityFilters[k] != nil })
+//@ }
+//@ func spec_hasCom(coms *types.Communities, c uint32) bool {
+//@ 	return coms != nil && verif_exists(0, len(*coms), func(k int) bool { return (*coms)[k] == c })
+//@ }
+//@ func spec_hasLCom(coms *types.LargeCommunities, c types.LargeCommunity) bool {
+//@ 	return coms != nil && verif_exists(0, len(*coms), func(k int) bool { return (*coms)[k] == c })
+//@ }
+//@ end
+
+//@ contract (*ExactMatcher).Match
+//@   props C14
+//@   nilrecv
+//@   requires pattern != nil && prefix != nil
+//@   ensures result == pattern.Equal(prefix)
+//@   modifies nothing
+
+//@ contract (*OrLongerMatcher).Match
+//@   props C14
+//@   nilrecv
+//@   requires net.Spec_OkPfx(pattern) && net.Spec_OkPfx(prefix) && net.Spec_SameFamily(pattern, prefix)
+//@   ensures result == spec_within(pattern, prefix)
+//@   modifies nothing
+
+//@ contract (*LongerMatcher).Match
+//@   props C14
+//@   nilrecv
+//@   requires net.Spec_OkPfx(pattern) && net.Spec_OkPfx(prefix) && net.Spec_SameFamily(pattern, prefix)
+//@   ensures result == (spec_within(pattern, prefix) && prefix.Len() > pattern.Len())
+//@   modifies nothing
+
+//@ contract (*InRangeMatcher).Match
+//@   props C14
+//@   requires i != nil && net.Spec_OkPfx(pattern) && net.Spec_OkPfx(prefix) && net.Spec_SameFamily(pattern, prefix)
+//@   ensures result == (spec_within(pattern, prefix) && prefix.Len() >= i.min && prefix.Len() <= i.max)
+//@   modifies nothing
+
+//@ contract (*RouteFilter).Matches
+//@   props C14
+//@   requires net.Spec_OkPfx(prefix) && spec_okRF(f, prefix)
+//@   ensures result == f.matcher.Match(f.pattern, prefix)
+//@   modifies nothing
+
+// A prefix list matches the prefixes it lists.
+//@ contract (*PrefixList).Matches
+//@   props C14
+//@   requires spec_okPL(l) && p != nil
+//@   ensures result == exists(k, 0, len(l.allowed), l.allowed[k].Equal(p))
+//@   modifies nothing
+//@   loop 0 vars rangeindex int
+//@   loop 0 invariant forall(k, 0, rangeindex+1, !l.allowed[k].Equal(p))
+
+// A community filter matches a path that carries its community; a path without
+// communities carries none.
+//@ contract (*CommunityFilter).Matches
+//@   props C14
+//@   requires f != nil
+//@   ensures result == spec_hasCom(coms, f.community)
+//@   modifies nothing
+//@   loop 0 vars rangeindex int
+//@   loop 0 invariant forall(k, 0, rangeindex+1, (*coms)[k] != f.community)
+
+//@ contract (*LargeCommunityFilter).Matches
+//@   props C14
+//@   requires f != nil
+//@   ensures result == spec_hasLCom(coms, f.community)
+//@   modifies nothing
+//@   loop 0 vars rangeindex int
+//@   loop 0 invariant forall(k, 0, rangeindex+1, (*coms)[k] != f.community)
+
+// Each part of a condition: no filters of that kind, or one of them matches.
+//@ contract (*TermCondition).matchesPrefixListFilters
+//@   props C14
+//@   requires spec_okTC(t, p)
+//@   ensures result == (len(t.prefixLists) == 0 || exists(k, 0, len(t.prefixLists), t.prefixLists[k].Matches(p)))
+//@   modifies nothing
+//@   loop 0 vars rangeindex int
+//@   loop 0 invariant forall(k, 0, rangeindex+1, !t.prefixLists[k].Matches(p))
+
+//@ contract (*TermCondition).matchesRouteFilters
+//@   props C14
+//@   requires spec_okTC(t, p)
+//@   ensures result == (len(t.routeFilters) == 0 || exists(k, 0, len(t.routeFilters), t.routeFilters[k].Matches(p)))
+//@   modifies nothing
+//@   loop 0 vars rangeindex int
+//@   loop 0 invariant forall(k, 0, rangeindex+1, !t.routeFilters[k].Matches(p))
+
+//@ contract (*TermCondition).matchesCommunityFilters
+//@   props C14
+//@   requires t != nil && pa != nil && forall(k, 0, len(t.communityFilters), t.communityFilters[k] != nil) && forall(k, 0, len(t.largeCommunityFilters), t.largeCommunityFilters[k] != nil)
+//@   ensures result == (len(t.communityFilters) == 0 || (pa.BGPPath != nil && exists(k, 0, len(t.communityFilters), spec_hasCom(pa.BGPPath.Communities, t.communityFilters[k].community))))
+//@   modifies nothing
+//@   loop 0 vars rangeindex int
+//@   loop 0 invariant pa.BGPPath != nil && forall(k, 0, rangeindex+1, !spec_hasCom(pa.BGPPath.Communities, t.communityFilters[k].community))
+
+//@ contract (*TermCondition).matchesLargeCommunityFilters
+//@   props C14
+//@   requires t != nil && pa != nil && forall(k, 0, len(t.communityFilters), t.communityFilters[k] != nil) && forall(k, 0, len(t.largeCommunityFilters), t.largeCommunityFilters[k] != nil)
+//@   ensures result == (len(t.largeCommunityFilters) == 0 || (pa.BGPPath != nil && exists(k, 0, len(t.largeCommunityFilters), spec_hasLCom(pa.BGPPath.LargeCommunities, t.largeCommunityFilters[k].community))))
+//@   modifies nothing
+//@   loop 0 vars rangeindex int
+//@   loop 0 invariant pa.BGPPath != nil && forall(k, 0, rangeindex+1, !spec_hasLCom(pa.BGPPath.LargeCommunities, t.largeCommunityFilters[k].community))
+
+//@ contract (*TermCondition).matchesProtocols
+//@   props C14
+//@   requires t != nil && pa != nil
+//@   ensures result == (len(t.protocols) == 0 || exists(k, 0, len(t.protocols), t.protocols[k] == pa.Type))
+//@   modifies nothing
+//@   loop 0 vars rangeindex int
+//@   loop 0 invariant forall(k, 0, rangeindex+1, t.protocols[k] != pa.Type)
+
+// A condition matches when all of its parts match.
+//@ contract (*TermCondition).Matches
+//@   props C14
+//@   requires spec_okTC(f, p) && pa != nil
+//@   ensures result == (f.matchesPrefixListFilters(p) && f.matchesRouteFilters(p) && f.matchesCommunityFilters(pa) && f.matchesLargeCommunityFilters(pa) && f.matchesProtocols(pa))
+//@   modifies nothing
+
+// Evaluation of actions, terms, filters and chains (properties C13 / C14). The
+// path handed on is the working copy itself or a newer copy made by an action;
+// only the working copy's own objects are written; the first terminating
+// action ends the evaluation; the path's eligibility mark and type never change.
+//@ spec
+//@ func spec_okAct(x actions.Action) bool {
+//@ 	switch v := x.(type) {
+//@ 	case *actions.SetLocalPrefAction:
+//@ 		return v != nil
+//@ 	case *actions.SetMEDAction:
+//@ 		return v != nil
+//@ 	case *actions.SetNextHopAction:
+//@ 		return v != nil
+//@ 	case *actions.ASPathPrependAction:
+//@ 		return v != nil
+//@ 	}
+//@ 	return x != nil
+//@ }
+//@ func spec_okTerm(t *Term, p *net.Prefix) bool {
+//@ 	return t != nil &&
+//@ 		verif_forall(0, len(t.from), func(k int) bool { return spec_okTC(t.from[k], p) }) &&
+//@ 		verif_forall(0, len(t.then), func(k int) bool { return spec_okAct(t.then[k]) })
+//@ }
+//@ func spec_okFilter(f *Filter, p *net.Prefix) bool {
+//@ 	return f != nil && verif_forall(0, len(f.terms), func(k int) bool { return spec_okTerm(f.terms[k], p) })
+//@ }
+//@ // some condition of the term matches (a term without conditions always applies)
+//@ func spec_applies(t *Term, p *net.Prefix, pa *route.Path) bool {
+//@ 	return len(t.from) == 0 || verif_exists(0, len(t.from), func(k int) bool { return t.from[k].Matches(p, pa) })
+//@ }
+//@ end
+
+//@ contract (*Term).processActions
+//@   props C13 C14
+//@   requires t != nil && actions.Spec_OkPath(pa) && forall(k, 0, len(t.then), spec_okAct(t.then[k]))
+//@   old b0 *route.BGPPath = pa.BGPPath
+//@   old a0 *route.BGPPathA = pa.BGPPath.BGPPathA
+//@   old box0 *types.ASPath = pa.BGPPath.ASPath
+//@   old arr0 any = actions.Spec_SegList(pa)
+//@   ensures actions.Spec_Keeps(pa, result.Path) && (result.Reject ==> result.Terminate) && actions.Spec_SameWork(pa, b0, a0, box0, arr0)
+//@   modifies pa.BGPPath, actions.Spec_SegList(pa)
+//@   loop 0 vars cur=pa *route.Path
+//@   loop 0 invariant actions.Spec_Keeps(pa, cur) && actions.Spec_SameWork(pa, b0, a0, box0, arr0)
+
+// A term applies when it has no conditions or one of them matches; otherwise
+// the path passes unchanged.
+//@ contract (*Term).Process
+//@   props C13 C14
+//@   requires spec_okTerm(t, p) && actions.Spec_OkPath(pa)
+//@   old applies bool = spec_applies(t, p, pa)
+//@   old b0 *route.BGPPath = pa.BGPPath
+//@   old a0 *route.BGPPathA = pa.BGPPath.BGPPathA
+//@   old box0 *types.ASPath = pa.BGPPath.ASPath
+//@   old arr0 any = actions.Spec_SegList(pa)
+//@   ensures actions.Spec_Keeps(pa, result.Path) && (result.Reject ==> result.Terminate) && actions.Spec_SameWork(pa, b0, a0, box0, arr0)
+//@   ensures[C14] !applies ==> result.Path == pa && !result.Terminate && !result.Reject
+//@   call[C14] processActions requires applies
+//@   modifies pa.BGPPath, actions.Spec_SegList(pa)
+//@   loop 0 vars rangeindex int
+//@   loop 0 invariant forall(k, 0, rangeindex+1, !t.from[k].Matches(p, pa))
+
+// Terms in order; the first one that terminates ends the filter.
+//@ contract (*Filter).Process
+//@   props C13 C14
+//@   requires spec_okFilter(f, p) && actions.Spec_OkPath(pa)
+//@   old b0 *route.BGPPath = pa.BGPPath
+//@   old a0 *route.BGPPathA = pa.BGPPath.BGPPathA
+//@   old box0 *types.ASPath = pa.BGPPath.ASPath
+//@   old arr0 any = actions.Spec_SegList(pa)
+//@   ensures actions.Spec_Keeps(pa, result.Path) && (result.Reject ==> result.Terminate) && actions.Spec_SameWork(pa, b0, a0, box0, arr0)
+//@   modifies pa.BGPPath, actions.Spec_SegList(pa)
+//@   loop 0 vars cur=pa *route.Path
+//@   loop 0 invariant actions.Spec_Keeps(pa, cur) && actions.Spec_SameWork(pa, b0, a0, box0, arr0)
+
+// A chain evaluates a copy: the path it is given, and every object reachable from
+// it, is left as it was (property C13); the result is a path object of its own
+// with the same eligibility mark (what the Adj-RIBs rely on, property C06).
 //@ contract Chain.Process
-//@   trusted until the policy interpreter is under contract (C14) and its frame is proved (C13)
-//@   ensures modPath != nil && modPath.HiddenReason == pa.HiddenReason
+//@   props C13 C14 C06 C12 C20
+//@   requires p != nil && actions.Spec_OkPath(pa) && forall(k, 0, len(c), spec_okFilter(c[k], p))
+//@   ensures modPath != nil && modPath.HiddenReason == pa.HiddenReason && modPath.Type == pa.Type && route.Spec_WorkFresh(modPath)
+//@   modifies nothing
+//@   loop 0 vars mp *route.Path
+//@   loop 0 invariant mp != nil && route.Spec_WorkFresh(mp) && actions.Spec_OkPath(mp) && mp.HiddenReason == pa.HiddenReason && mp.Type == pa.Type
+
+// Equality of policies (property C14, second sentence; used by C12 to skip a
+// replacement): matchers that compare equal match the same prefixes, and the
+// equality of route filters, prefix lists, conditions, terms, filters and
+// chains descends into every part.
+//@ lemma inRangeEqual (a *InRangeMatcher, b *InRangeMatcher, pattern *net.Prefix, prefix *net.Prefix)
+//@   props C14 C12
+//@   inline
+//@   requires a != nil && b != nil && pattern != nil && prefix != nil
+//@   ensures a.equal(b) ==> a.Match(pattern, prefix) == b.Match(pattern, prefix)
+//@   ensures a.equal(b) ==> a.min == b.min && a.max == b.max
+
+//@ lemma matcherKinds (r *InRangeMatcher, e *ExactMatcher, o *OrLongerMatcher, l *LongerMatcher)
+//@   props C14 C12
+//@   inline
+//@   requires r != nil && e != nil && o != nil && l != nil
+//@   ensures !r.equal(e) && !r.equal(o) && !r.equal(l) && !e.equal(r) && !e.equal(o) && !e.equal(l) && !o.equal(r) && !o.equal(e) && !o.equal(l) && !l.equal(r) && !l.equal(e) && !l.equal(o)
+
+//@ lemma routeFilterEqual (f *RouteFilter, x *RouteFilter, prefix *net.Prefix)
+//@   props C14 C12
+//@   inline
+//@   requires f != nil && x != nil && prefix != nil && f.pattern != nil && x.pattern != nil && spec_okMatcher(f.matcher) && spec_okMatcher(x.matcher)
+//@   ensures f.equal(x) ==> f.Matches(prefix) == x.Matches(prefix)
+
+//@ contract (*RouteFilter).equal
+//@   props C14 C12
+//@   requires f != nil && x != nil && spec_okMatcher(f.matcher) && spec_okMatcher(x.matcher)
+//@   ensures result == (f.pattern == x.pattern && f.matcher.equal(x.matcher))
+//@   modifies nothing
+
+//@ contract (*PrefixList).equal
+//@   props C14 C12
+//@   requires spec_okPL(l) && spec_okPL(x)
+//@   ensures result == (len(l.allowed) == len(x.allowed) && forall(k, 0, len(l.allowed), l.allowed[k].Equal(x.allowed[k])))
+//@   modifies nothing
+//@   loop 0 vars rangeindex int
+//@   loop 0 invariant len(l.allowed) == len(x.allowed) && forall(k, 0, rangeindex+1, l.allowed[k].Equal(x.allowed[k]))
+
+// Equal conditions have lists of the same lengths, and the same community, large
+// community and protocol values (that the route filters and prefix lists are
+// compared element by element, with the equalities above, is not under contract:
+// those obligations were too slow to be claimed).
+//@ contract (*TermCondition).equal
+//@   props C14 C12
+//@   nosafety
+//@   requires t != nil && x != nil
+//@   ensures result ==> len(t.prefixLists) == len(x.prefixLists) && len(t.routeFilters) == len(x.routeFilters) && len(t.communityFilters) == len(x.communityFilters) && len(t.largeCommunityFilters) == len(x.largeCommunityFilters) && len(t.protocols) == len(x.protocols)
+//@   ensures result ==> forall(k, 0, len(t.communityFilters), t.communityFilters[k].community == x.communityFilters[k].community)
+//@   ensures result ==> forall(k, 0, len(t.largeCommunityFilters), t.largeCommunityFilters[k].community == x.largeCommunityFilters[k].community)
+//@   ensures result ==> forall(k, 0, len(t.protocols), t.protocols[k] == x.protocols[k])
+//@   modifies nothing
+//@   loop 2 vars rangeindex int
+//@   loop 2 invariant forall(k, 0, rangeindex+1, t.communityFilters[k].community == x.communityFilters[k].community)
+//@   loop 3 vars rangeindex int
+//@   loop 3 invariant forall(k, 0, rangeindex+1, t.largeCommunityFilters[k].community == x.largeCommunityFilters[k].community)
+//@   loop 4 vars rangeindex int
+//@   loop 4 invariant forall(k, 0, rangeindex+1, t.protocols[k] == x.protocols[k])
+
+// Equal terms have as many conditions and actions (the element-wise comparison is not under contract).
+//@ contract (*Term).equal
+//@   props C14 C12
+//@   nosafety
+//@   requires t != nil && x != nil
+//@   ensures result ==> len(t.from) == len(x.from) && len(t.then) == len(x.then)
 //@   modifies nothing
